@@ -7,26 +7,28 @@ PROPS['C10'] = dict(
                 'scope of a bend message (which chip channels get a frequency write inside the call) and DT/MUL integrity in the native range '
                 'are checked on the same stream, in an ASan+UBSan build. Holds on the sweeps executed only.'),
     level_note=('trusted: clang 14 ASan/UBSan, the tap (one guarded line per write function), the harness decoder; chip clocks 7670454 / 7987200 Hz; '
-                'sweeps are sampled (stride 17 over the bend wheel except for 8 keys with all 16384 values at range 2); no audio is analysed (C20 does that)'),
+                'sweeps are sampled (stride 17 over the bend wheel, stride 8 in the thorough-only stage sweep-dense, all 16384 values at range 2 for 8 keys); '
+                'no audio is analysed (C20 does that)'),
     rule=('one case = one enumerated sweep chunk: (family, melodic|percussion, RPN0 MSB in {0,1,2,12,24}, note offset in {-100,-24,-12,-7,-1,0,1,5,12,24,100}, '
           '8 keys) x ~970 bends, or one (family, kind, key, quarter of all 16384 bends), or an RPN0-LSB / portamento / vibrato / bend-scope scenario; '
           'distinct = distinct (family, block written, key class, bend class, instrument kind) tuples plus scenario classes '
           '(portamento direction/time/distance, vibrato source/depth, scope occupancy) in which the oracle was evaluated'),
-    floor=150,
+    floor=600,
     assumptions=['tolerance: |fnum - ideal fnum for the written block| <= 1.5 (one F-number step + rounding) for nominal frequency < 6600 Hz',
-                 'above the native range (library raises MUL) only monotonicity of each operator\'s frequency fnum*2^block*MUL is required',
+                 'above the native range (library raises MUL) only monotonicity of each operator\'s frequency fnum*2^block*multiplier(MUL), multiplier(0)=0.5, is required; '
+                 'a drop that goes with a MUL change or the MUL ceiling 15 is keyed ...:above-native-range:..., any other drop there ...:same-mul-above-native-range:...',
                  'RPN 0 LSB units are three-valued: range must lie between MSB and MSB+1 semitones and grow with LSB',
                  'vibrato depth is not given by the statement: deviations up to 1 semitone are accepted (observed maximum is recorded in monitor_counters)',
                  'pedal-/sostenuto-held notes may or may not follow a bend (statement speaks of keys still down): both accepted, counted',
                  'portamento time scale is not given: a glide that does not reach its target within 60 s of audio is inconclusive, not a violation',
                  'percussion_key_number 0 means "sounds at the played key"; drum keys 1..127 are used'],
     stages=[
-        dict(name='sweep', variant='asan', harness='c10_pitch.cpp', quick=1280, thorough=3520, budget=120),
-        dict(name='sweep-dense', variant='asan', harness='c10_pitch.cpp', quick=0, thorough=3520, budget=300, opts=dict(stride=4)),
+        dict(name='sweep', variant='asan', harness='c10_pitch.cpp', quick=960, thorough=3520, budget=120),
+        dict(name='sweep-dense', variant='asan', harness='c10_pitch.cpp', quick=0, thorough=3520, budget=300, opts=dict(stride=8)),
         dict(name='fullbend', variant='asan', harness='c10_pitch.cpp', quick=128, thorough=128, budget=120),
         dict(name='lsb', variant='asan', harness='c10_pitch.cpp', quick=160, thorough=160, budget=120),
-        dict(name='porta', variant='asan', harness='c10_pitch.cpp', quick=640, thorough=6000, budget=120),
-        dict(name='vibrato', variant='asan', harness='c10_pitch.cpp', quick=640, thorough=6000, budget=60),
-        dict(name='scope', variant='asan', harness='c10_pitch.cpp', quick=2000, thorough=20000, budget=60),
+        dict(name='porta', variant='asan', harness='c10_pitch.cpp', quick=640, thorough=4000, budget=120),
+        dict(name='vibrato', variant='asan', harness='c10_pitch.cpp', quick=640, thorough=4000, budget=60),
+        dict(name='scope', variant='asan', harness='c10_pitch.cpp', quick=2000, thorough=10000, budget=60),
     ],
 )
